@@ -75,10 +75,10 @@ def structure_stats(res):
 
 
 def standard_run(rep, tier, seed, replay, proof_ok, proof_msg, gen_cases, evaluate, configs=None, corr_name="core harness vs Lean Impl model",
-                 nontrivial=None, omp=False):
+                 nontrivial=None, omp=False, starpu=False):
     """gen_cases(tier, seed, configs) -> cases ; evaluate(result) -> (corr_diffs, oracle_fails), each a list of (signature, message)"""
     configs = configs or ALL_CONFIGS
-    binaries, bad = core.build_harnesses(configs, omp=omp)
+    binaries, bad = core.build_harnesses(configs, omp=omp, starpu=starpu)
     if bad:
         rep.notes.append("configurations whose harness does not compile (reported by C19): " + ", ".join("D=%d periodic=%d" % c for c in sorted(bad)))
     if not binaries:
@@ -106,7 +106,7 @@ def standard_run(rep, tier, seed, replay, proof_ok, proof_msg, gen_cases, evalua
             sig = "crash:" + crash_signature(res.crash)
             if "Assertion" in sig and rep.pid != "C15":
                 # an internal assertion tripped: that is C15's business; decide *this* property on the same input with assertions compiled out
-                res2 = rerun_ndebug(c, omp)
+                res2 = rerun_ndebug(c, omp, starpu)
                 if res2 is not None and res2.crash is None and res2.cpp is not None and res2.lean is not None:
                     corr2, orc2 = evaluate(res2)
                     if not orc2:
@@ -171,8 +171,8 @@ def standard_run(rep, tier, seed, replay, proof_ok, proof_msg, gen_cases, evalua
     rep.cov["configs_built"] = ["D=%d periodic=%d" % c for c in usable]
 
 
-def rerun_ndebug(case, omp=False):
-    spec = core.harness_spec(case["D"], case["periodic"], omp)
+def rerun_ndebug(case, omp=False, starpu=False):
+    spec = core.harness_spec(case["D"], case["periodic"], omp, False, starpu)
     spec = dict(spec, name=spec["name"] + "_ndebug", flags=list(spec["flags"]) + ["-DNDEBUG"])
     res = common.build_many([spec])
     path, log = res[spec["name"]]
